@@ -10,6 +10,7 @@
 //!   0 UNSATISFIABLE | 1 TRIVIAL | 2 i pk(key i) | 3 t after(t) | 4 t older(t)
 //!   | 5 i sha256 | 6 i hash256 | 7 i ripemd160 | 8 i hash160
 //!   | 9 k n <n children> thresh | 10 n <children> and (concrete) | 11 n <children> or (concrete)
+//!   | 12 n (<odds> <child>)*n  or with explicit odds per branch (concrete; 11 = all odds 1)
 //! A result slot holds the value or 99 when the call panicked.
 //! Lines:
 //!   1 <p> <normalized> <idem 0/1/99> <sorted> <n_keys: 1 v|99> <min_keys: 0|1 m|99>
@@ -29,6 +30,8 @@ type Sem = Semantic<String>;
 type Conc = Concrete<String>;
 
 const PANIC: u64 = 99;
+/// large but still a `usize` on every target and within the 62 bits of the Coq packing
+const HUGE_ODDS: u64 = 1 << 31;
 
 #[derive(Clone, Debug, PartialEq, Eq)]
 pub enum P {
@@ -44,6 +47,8 @@ pub enum P {
     Th(usize, Vec<P>),
     And(Vec<P>),
     Or(Vec<P>),
+    /// concrete `Or` with explicit odds per branch (the plain `Or` uses odds 1 everywhere)
+    OrW(Vec<(u64, P)>),
 }
 
 const KEYS: [&str; 10] = ["A", "B", "C", "D", "E", "F", "G", "H", "I", "J"];
@@ -66,7 +71,7 @@ fn to_sem(p: &P) -> Sem {
         P::Th(k, subs) => Sem::Thresh(
             Threshold::new(*k, subs.iter().map(|s| Arc::new(to_sem(s))).collect()).expect("threshold"),
         ),
-        P::And(_) | P::Or(_) => panic!("and/or are concrete-only"),
+        P::And(_) | P::Or(_) | P::OrW(_) => panic!("and/or are concrete-only"),
     }
 }
 
@@ -86,6 +91,7 @@ fn to_conc(p: &P) -> Conc {
         ),
         P::And(subs) => Conc::And(subs.iter().map(|s| Arc::new(to_conc(s))).collect()),
         P::Or(subs) => Conc::Or(subs.iter().map(|s| (1usize, Arc::new(to_conc(s)))).collect()),
+        P::OrW(subs) => Conc::Or(subs.iter().map(|(w, s)| (*w as usize, Arc::new(to_conc(s)))).collect()),
     }
 }
 
@@ -111,6 +117,13 @@ fn enc(p: &P, out: &mut Vec<u64>) {
         P::Or(subs) => {
             out.extend([11, subs.len() as u64]);
             subs.iter().for_each(|s| enc(s, out));
+        }
+        P::OrW(subs) => {
+            out.extend([12, subs.len() as u64]);
+            for (w, s) in subs {
+                out.push(*w);
+                enc(s, out);
+            }
         }
     }
 }
@@ -164,6 +177,17 @@ fn dec(toks: &[u64], pos: &mut usize) -> P {
         11 => {
             let n = arg(pos) as usize;
             P::Or((0..n).map(|_| dec(toks, pos)).collect())
+        }
+        12 => {
+            let n = arg(pos) as usize;
+            P::OrW(
+                (0..n)
+                    .map(|_| {
+                        let w = arg(pos);
+                        (w, dec(toks, pos))
+                    })
+                    .collect(),
+            )
         }
         x => panic!("bad policy token {}", x),
     }
@@ -336,6 +360,17 @@ fn all_of_size(size: usize, leaves: &[P], by_size: &[Vec<P>], concrete: bool, ma
                 if concrete {
                     r.push(P::And(subs.clone()));
                     r.push(P::Or(subs.clone()));
+                    // the odds are a hint for the compiler only and must not change the meaning:
+                    // zero on the first / last / every branch, a huge one, equal ones
+                    let n = subs.len();
+                    let with = |w: &dyn Fn(usize) -> u64| {
+                        P::OrW(subs.iter().enumerate().map(|(i, c)| (w(i), c.clone())).collect())
+                    };
+                    r.push(with(&|i| if i == 0 { 0 } else { 1 }));
+                    r.push(with(&|i| if i + 1 == n { 0 } else { 3 }));
+                    r.push(with(&|_| 0));
+                    r.push(with(&|i| if i == 0 { HUGE_ODDS } else { 1 }));
+                    r.push(with(&|_| 7));
                 }
             }
         }
@@ -387,7 +422,13 @@ fn rand_pol(rng: &mut Rng, budget: usize, atoms: &[P], concrete: bool) -> P {
     if concrete {
         match rng.below(5) {
             0 | 1 => return P::And(subs),
-            2 => return P::Or(subs),
+            2 => {
+                if rng.below(2) == 0 {
+                    return P::Or(subs);
+                }
+                const ODDS: [u64; 8] = [0, 0, 0, 1, 1, 2, 7, HUGE_ODDS];
+                return P::OrW(subs.into_iter().map(|c| (*rng.pick(&ODDS), c)).collect());
+            }
             _ => {}
         }
     }
@@ -434,6 +475,7 @@ fn rand_atoms(rng: &mut Rng, n: usize) -> Vec<P> {
 fn count_terms(p: &P) -> usize {
     match p {
         P::Th(_, s) | P::And(s) | P::Or(s) => s.iter().map(count_terms).sum::<usize>(),
+        P::OrW(s) => s.iter().map(|(_, c)| count_terms(c)).sum::<usize>(),
         P::U | P::T => 0,
         _ => 1,
     }
@@ -442,6 +484,7 @@ fn count_terms(p: &P) -> usize {
 fn count_nodes(p: &P) -> usize {
     match p {
         P::Th(_, s) | P::And(s) | P::Or(s) => 1 + s.iter().map(count_nodes).sum::<usize>(),
+        P::OrW(s) => 1 + s.iter().map(|(_, c)| count_nodes(c)).sum::<usize>(),
         _ => 1,
     }
 }
@@ -457,6 +500,7 @@ fn replace_nth(p: &P, i: &mut isize, with: &P) -> P {
         P::Th(k, s) => P::Th(*k, s.iter().map(|c| replace_nth(c, i, with)).collect()),
         P::And(s) => P::And(s.iter().map(|c| replace_nth(c, i, with)).collect()),
         P::Or(s) => P::Or(s.iter().map(|c| replace_nth(c, i, with)).collect()),
+        P::OrW(s) => P::OrW(s.iter().map(|(w, c)| (*w, replace_nth(c, i, with))).collect()),
         x => x.clone(),
     }
 }
@@ -512,6 +556,13 @@ fn corpus() -> Vec<Input> {
         Input::Conc(Or(vec![Key(0)])),
         Input::Conc(And(vec![])),
         Input::Conc(Or(vec![])),
+        // odds are a compiler hint only: zero, huge, equal odds must lift like any other
+        Input::Conc(OrW(vec![(0, Key(0)), (1, Key(1))])),
+        Input::Conc(OrW(vec![(0, Key(0)), (0, Key(1))])),
+        Input::Conc(OrW(vec![(HUGE_ODDS, Key(0)), (1, Key(1))])),
+        Input::Conc(And(vec![Key(2), OrW(vec![(0, And(vec![Key(0), Older(1000)])), (5, Key(1))])])),
+        Input::Conc(OrW(vec![(0, After(1)), (0, After(500_000_001))])),
+        Input::Conc(And(vec![OrW(vec![(0, After(1)), (9, Key(0))]), After(500_000_001)])),
         Input::Conc(Th(2, vec![And(vec![]), Or(vec![]), Key(0)])),
         // lift re-runs check_timelocks inside unsatisfiable branches
         Input::Conc(And(vec![And(vec![After(1), After(500_000_001)]), U])),
